@@ -15,9 +15,10 @@
    decoder (Names.deser_sample_names, Collection.deserialize_sample_names) in OpenStage_proofs.v.
 
    zstd is the argument [zd : list N -> option (list N)] (None = zstd::decode_all returns an error).
-   Profile: CollectionVarInt::decode's 5-byte form does `num += THR_4` on a full 32-bit value (translator item
-   CV5_ADD_FORM = 0): the dev profile traps when the sum leaves u32, release wraps.  No other arithmetic of this
-   stage can leave its type (all other varint forms are bounded by their mask class, the params fields are
+   Profile: until /repo 4d083e0 CollectionVarInt::decode's 5-byte form did `num += THR_4` on a full 32-bit value
+   (translator item CV5_ADD_FORM = 0): the dev profile trapped when the sum left u32, release wrapped.  The code
+   now uses checked_add + error (CV5_ADD_FORM = 2): no profile dependence is left; the old forms stay in the model
+   as the [form] argument of cv_decode_f / open2_f.  No other arithmetic of this stage can leave its type (all other varint forms are bounded by their mask class, the params fields are
    from_le_bytes, `raw_size as usize` is u64 -> usize on a 64-bit target).
    Indexing: `data[0..16]` in load_params is guarded by the length tests; it is still written with an explicit
    bounds test ([u32_le_at] = None -> Panic) so that the safety theorem says something.  `ptr[..end]` /
@@ -64,6 +65,7 @@ Definition e_size : N := 12.            (* "Decompressed size mismatch" *)
 Definition e_varint : N := 13.          (* "Unexpected end of data while decoding .. varint" *)
 Definition e_no_nul : N := 14.          (* "Null terminator not found in string" *)
 Definition e_utf8 : N := 15.            (* "Invalid UTF-8 in string" *)
+Definition e_varint_range : N := 16.    (* "Invalid 5-byte varint: value exceeds u32" (since /repo 4d083e0) *)
 
 Inductive alloc := AFile (n : N) | AZstd (n : N) | AName (n : N) | ATable (n : N).
 
@@ -77,32 +79,55 @@ Definition lbind {A B} (x : lres A) (f : A -> lres B) : lres B :=
   | O2panic => (fst x, O2panic)
   end.
 
-(* ------------------------------------------------------------------ CollectionVarInt::decode in both profiles *)
-(* the 32-bit value of bytes 1..4 of a 5-byte varint, and the advanced slice *)
-Definition cv5_num (ptr : list N) : option (N * list N) :=
+(* ------------------------------------------------------------------ CollectionVarInt::decode, every form of the 5-byte addition *)
+(* Own transcription (CVarint.cv_decode, the C03 model of the same function, is proved equal wherever the count is
+   in range: OpenStage_proofs.cv_decode_f_c03).  The 1..4-byte sums cannot leave u32 (the first byte is bounded by
+   its mask class).  The 5-byte form adds THR_4 to a full 32-bit value; [form] says how the code does it:
+     0  `num += Self::THR_4`      the code before /repo 4d083e0: the dev profile traps, release wraps
+     1  wrapping_add              wraps in both profiles
+     2  (anything else) checked_add(..).context(..)?   an error value in both profiles - the code today
+   The code has form CV5_ADD_FORM (translator item, re-read from the source on every run). *)
+Definition cv_decode_f (form : N) (pf : profile) (ptr : list N) : outcome (N * list N) :=
   match ptr with
-  | _ :: p1 :: p2 :: p3 :: p4 :: r => Some (N.shiftl (N.shiftl (N.shiftl p1 8 + p2) 8 + p3) 8 + p4, r)
-  | _ => None
-  end.
-
-(* CVarint.cv_decode is the dev-profile function: its only Panic is the 5-byte `num += THR_4` overflow.
-   CV5_ADD_FORM: 0 = plain `+=` (dev traps, release wraps), 1 = wrapping_add, 2 = checked_add -> error *)
-Definition cv_decode_p (pf : profile) (ptr : list N) : outcome (N * list N) :=
-  match cv_decode ptr with
-  | Panic =>
-    match CV5_ADD_FORM, pf with
-    | 0, Dev => Panic
-    | 0, Release | 1, _ =>
-      match cv5_num ptr with
-      | Some (num, r) => Ok (wrap32 (num + cv_thr_4), r)
-      | None => Panic                    (* unreachable: cv_decode panics only in the 5-byte form *)
+  | [] => Err
+  | first :: _ =>
+    if N.land first cv_mask_1 =? cv_pref_1 then
+      Ok (first - cv_pref_1, tl ptr)
+    else if N.land first cv_mask_2 =? cv_pref_2 then
+      match ptr with
+      | p0 :: p1 :: r => Ok (N.shiftl p0 8 + p1 + cv_thr_1 - N.shiftl cv_pref_2 8, r)
+      | _ => Err
       end
-    | _, _ => Err
-    end
-  | o => o
+    else if N.land first cv_mask_3 =? cv_pref_3 then
+      match ptr with
+      | p0 :: p1 :: p2 :: r => Ok (N.shiftl p0 16 + N.shiftl p1 8 + p2 + cv_thr_2 - N.shiftl cv_pref_3 16, r)
+      | _ => Err
+      end
+    else if N.land first cv_mask_4 =? cv_pref_4 then
+      match ptr with
+      | p0 :: p1 :: p2 :: p3 :: r =>
+        Ok (N.shiftl p0 24 + N.shiftl p1 16 + N.shiftl p2 8 + p3 + cv_thr_3 - N.shiftl cv_pref_4 24, r)
+      | _ => Err
+      end
+    else
+      match ptr with
+      | _ :: p1 :: p2 :: p3 :: p4 :: r =>
+        let num := N.shiftl (N.shiftl (N.shiftl p1 8 + p2) 8 + p3) 8 + p4 in
+        match add_u32 num cv_thr_4 with
+        | Some v => Ok (v, r)
+        | None =>
+          match form, pf with
+          | 0, Dev => Panic
+          | 0, Release | 1, _ => Ok (wrap32 (num + cv_thr_4), r)
+          | _, _ => Err                      (* "Invalid 5-byte varint: value exceeds u32" *)
+          end
+        end
+      | _ => Err
+      end
   end.
+Definition cv_decode_p (pf : profile) (ptr : list N) : outcome (N * list N) := cv_decode_f CV5_ADD_FORM pf ptr.
 
-(* the inputs on which the two profiles differ: first byte 0xF0..0xFF, four more bytes whose big-endian value
+(* the inputs on which the forms differ: first byte 0xF0..0xFF, four more bytes whose big-endian value
    plus THR_4 (270549120) does not fit u32, i.e. value >= 0xEFDFBF80 *)
 Definition cv5_overflows (v : list N) : bool :=
   match v with
@@ -129,12 +154,14 @@ Fixpoint dec_names (n : nat) (i : N) (ptr : list N) : lres (list name) :=
     end
   end.
 
-Definition deser_sample_names_p (pf : profile) (data : list N) : lres (list name) :=
-  match cv_decode_p pf data with
+Definition deser_sample_names_f (form : N) (pf : profile) (data : list N) : lres (list name) :=
+  match cv_decode_f form pf data with
   | Ok (no_samples, ptr) => dec_names (clamp no_samples ptr) 0 ptr
-  | Err => ([], O2err e_varint)
+  | Err => ([], O2err (if cv5_overflows data then e_varint_range else e_varint))
   | Panic => ([], O2panic)
   end.
+Definition deser_sample_names_p (pf : profile) (data : list N) : lres (list name) :=
+  deser_sample_names_f CV5_ADD_FORM pf data.
 
 (* the CollectionV3 after deserialize_sample_names (sample_desc, sample_ids) with set_config(segment_size, k) *)
 Definition coll_of_names (segment_size kmer_length : N) (ns : list name) : coll :=
@@ -245,11 +272,14 @@ Record handle_summary := mkHandle {
 
 Definition h_samples (h : handle_summary) : list name := get_samples_list (h_coll h).   (* list_samples() *)
 
-Definition open2 (pf : profile) (max_off : N) (zd : list N -> option (list N)) (file : list N) : lres handle_summary :=
+Definition open2_f (form : N) (pf : profile) (max_off : N) (zd : list N -> option (list N)) (file : list N)
+  : lres handle_summary :=
   lbind (open_pre max_off zd file) (fun st =>
-  lbind (deser_sample_names_p pf (ps_stream st)) (fun ns =>
+  lbind (deser_sample_names_f form pf (ps_stream st)) (fun ns =>
   lret (mkHandle (ps_segment_size st) (ps_kmer_length st) (ps_min_match_len st)
                  (coll_of_names (ps_segment_size st) (ps_kmer_length st) ns) (ps_reader st)))).
+Definition open2 (pf : profile) (max_off : N) (zd : list N -> option (list N)) (file : list N) : lres handle_summary :=
+  open2_f CV5_ADD_FORM pf max_off zd file.
 
 (* the file lives on a file system whose largest offset is at least 2^64 - 1: no seek is refused for its offset
    (every offset open uses is at most the file length, OpenStage_proofs.open2_max_off_irrelevant) *)
